@@ -1,13 +1,18 @@
 /-
-  C09 — User-mode code cannot touch memory or state outside user space.
+  C09 — User-mode code cannot touch memory or state outside user space.   (proved for the model, whole steps)
   Proved here (all states): the access context of a user-mode machine with privilege checks on is unprivileged;
   an unprivileged access outside x3000-xFDFF is rejected as an access violation *before* memory, devices,
   internal registers or the observer are touched; an unprivileged access that is performed lies in user space;
-  RTI in user mode is a privilege violation that changes nothing; the execute stage of every load/store uses
-  exactly that context (C08's exec_ld/st/ldr/str/ldi/sti).  Whole-step corollary `user_step_*` is stated per
-  instruction class; the closure over *every* instruction of a run is checked by the correspondence oracle.
+  RTI in user mode is a privilege violation that changes nothing.
+  Whole step (`user_step_confined`, via the frame calculus of Lemmas/UserFrame + UserStep over every instruction): a
+  user-mode step that is not a TRAP and takes no interrupt ends in user mode with memory outside user space, devices,
+  internal registers, saved SP and MCR unchanged, and with every logged access unprivileged and, if performed, inside
+  x3000-xFDFF — whether the step succeeded or was rejected.  TRAP and interrupts enter the supervisor (C10, C12); with
+  real traps a rejected access continues into the OS exception handler (C08.real_trap_vectoring).
+  Over runs: the correspondence oracle (every access of every step of generated user programs).
 -/
 import Lc3V.Props.C08
+import Lc3V.Lemmas.UserStep
 namespace Lc3V.C09
 open Lc3V Sim SimM
 
@@ -74,11 +79,52 @@ theorem user_store (s : Sim) (a : W) (d : Word) (h : userMode s) (hs : s.flags.s
     obtain ⟨s', h1, h2, _, h4, _⟩ := C08.writeMem_violation s a d _ (user_ctx_unprivileged s h) hu'
     exact ⟨hu', s', h1, h2, h4⟩
 
+/-! ### whole steps -/
+
+/-- **a user-mode step is confined to user space** (every instruction except TRAP, no interrupt taken): after the step —
+    whether it succeeded or was rejected — the machine is still in user mode; memory outside x3000–xFDFF (OS, vector tables,
+    supervisor stack, I/O page), all devices (beyond the interrupt poll that opens every step), the internal-register map,
+    the saved stack pointer and the MCR are unchanged; every access the step made was unprivileged, and every access that
+    was performed lies in x3000–xFDFF.  (TRAP and interrupts enter the supervisor: C10/C12.) -/
+theorem user_step_confined (s : Sim) (h : userMode s)
+    (hpoll : (s.dev.pollInterrupt).1 = none ∨
+      ∃ v p, (s.dev.pollInterrupt).1 = some (.vectored v p) ∧ ¬ p > PSR.priority s.psr)
+    (hnt : ∀ i, SimInstr.decode (s.memAt s.pc).data = .ok i → i.isTrap = false) :
+    UFrame (afterPoll s) (stepInner s).2 := by
+  have hfe := fetchExec_user_frame (afterPoll s) h.1 h.2 hnt
+  unfold stepInner
+  rcases hpoll with hp | ⟨v, p, hp, hprio⟩
+  · simp only [hp]; exact hfe
+  · have : ¬ p > PSR.priority (afterPoll s).psr := hprio
+    simp only [hp, this, if_false]; exact hfe
+
+/-- the same in plain terms -/
+theorem user_step_confined' (s : Sim) (h : userMode s)
+    (hpoll : (s.dev.pollInterrupt).1 = none)
+    (hnt : ∀ i, SimInstr.decode (s.memAt s.pc).data = .ok i → i.isTrap = false) :
+    PSR.privileged (stepInner s).2.psr = false ∧
+    (∀ a, inUser a = false → (stepInner s).2.memAt a = s.memAt a) ∧
+    (stepInner s).2.dev = (s.dev.pollInterrupt).2 ∧ (stepInner s).2.savedSp = s.savedSp ∧ (stepInner s).2.mcr = s.mcr ∧
+    ∃ new, (stepInner s).2.log = new ++ s.log ∧ ∀ x ∈ new, x.privileged = false ∧ (x.performed = true → inUser x.addr = true) := by
+  have hf := user_step_confined s h (Or.inl hpoll) hnt
+  exact ⟨hf.user, hf.mem, hf.dev, hf.savedSp, hf.mcr, hf.log⟩
+
+/-- with virtual traps `step` is the inner step, so the confinement holds for `step` as the API runs it -/
+theorem user_step_confined_virtual (s : Sim) (h : userMode s) (hv : s.flags.realTraps = false)
+    (hpoll : (s.dev.pollInterrupt).1 = none)
+    (hnt : ∀ i, SimInstr.decode (s.memAt s.pc).data = .ok i → i.isTrap = false) :
+    UFrame (afterPoll s) (Sim.step s).2 := by
+  have hf := user_step_confined s h (Or.inl hpoll) hnt
+  have : (stepInner s).2.flags.realTraps = false := by rw [hf.flags]; exact hv
+  rw [C08.virtual_step s this]
+  exact hf
+
 -- non-vacuity: the reset state is a user-mode state
 example : PSR.privileged PSR.new = false := by decide
 
 def obligations : List Lean.Name :=
   [``user_ctx_unprivileged, ``inUser_iff, ``read_performed_in_user, ``write_performed_in_user,
-   ``user_violation_changes_nothing, ``user_fetch_violation, ``user_rti, ``user_store]
+   ``user_violation_changes_nothing, ``user_fetch_violation, ``user_rti, ``user_store, ``user_step_confined, ``user_step_confined',
+   ``user_step_confined_virtual]
 
 end Lc3V.C09
